@@ -471,8 +471,8 @@ def shrink(case):
 
 def plan(tier):
   if tier == 'quick':
-    return {'batches': 48, 'timeout': 300, 'a_plans': 400, 'b_programs': 0}
-  return {'batches': 480, 'timeout': 1500, 'a_plans': 4000, 'b_programs': 0}
+    return {'batches': 48, 'timeout': 600, 'a_plans': 400, 'b_programs': 10}
+  return {'batches': 480, 'timeout': 2400, 'a_plans': 4000, 'b_programs': 60}
 
 
 def trivial_a(case, obs):
@@ -593,11 +593,17 @@ def evidence_meta(tier):
                'jumps forwards and backwards, terminal/colab-text display) and an engine error at '
                'every call position (sampled in the quick tier). A run is one execution of '
                'Concertina.Run(). Non-trivial = the plan has an iteration group or a fault fired; '
-               'distinct = distinct SHA-256 of the explicit case.'),
+               'distinct = distinct SHA-256 of the explicit case. '
+               'Layer B: generated programs with @Ground intermediates and/or recursion of depth 21..41 (iterative plans), a random '
+               'non-empty subset of requested predicates (incl. grounded intermediates and cover members), in-memory or file database, '
+               'optionally one faulted run (abort/interrupt/disk full/locked) before the checked run; executed by the real '
+               'ExecuteLogicaProgram + SqlRunner on SQLite; reads/creates per statement from the SQLite authorizer; every requested '
+               'predicate is also run alone and compared.'),
       'states_measure': 'distinct (plan, call trace) pairs (SHA-256 of sorted actions + engine call sequence)',
       'sim_time_unit': 'simulated seconds (sum of drawn action durations)',
       'components': {
-          'real': ['common/concertina_lib.py: Concertina (SortActions, UnderstandIterations, '
+          'real': ['layer B: parser, compiler, concertina_lib.ExecuteLogicaProgram/RenamePredicate/ConcertinaQueryEngine, run_in_terminal.SqlRunner/RunSQL, SQLite',
+                   'common/concertina_lib.py: Concertina (SortActions, UnderstandIterations, '
                    'UpdateStateForIterativeAction, ActionIterationWantsToStopBySignal, Run, display code '
                    'in silent/terminal/colab-text modes)', 'common/graph_art.py'],
           'stub': ['engine (simulated: records calls, owns time, raises injected errors)',
@@ -607,7 +613,9 @@ def evidence_meta(tier):
       'expected_probes': ['signal_observed_at_a_check', 'signal_first_seen_by_non_first_member',
                           'signal_seen_after_first_repetition', 'signal_and_last_repetition_coincide',
                           'unbounded_iteration_stopped_by_signal', 'two_or_more_groups',
-                          'display_rendered'],
+                          'display_rendered', 'B_compiled_iteration_executed',
+                          'B_requested_predicate_is_also_an_intermediate', 'B_together_vs_alone_compared',
+                          'B_grounded_intermediates'],
       'assumptions': [
           'plans are well-formed: acyclic, disjoint groups, in-group requirements point backwards in the declared order, no outside action between two members of a group',
           'a stop signal is "raised" when the file exists with non-empty content at the instant a member checks it; once seen it stays seen (the code says so explicitly)',
